@@ -824,7 +824,7 @@ Definition handle_call (c : cfg) (id : Z) (tg : target) (params : option payload
 
 (* parseReturn: embargo the local capabilities the application has pipelined calls on *)
 Fixpoint embargo_caps (c : cfg) (qid : Z) (k : content) (called : list (list Z)) (loc : list bool)
-         (tab : list cap) (s : state) : res (state * list cap * list output) :=
+         (done : list Z) (tab : list cap) (s : state) : res (state * list cap * list output) :=
   match called with
   | [] => Ok (s, tab, [])
   | x :: r =>
@@ -832,14 +832,16 @@ Fixpoint embargo_caps (c : cfg) (qid : Z) (k : content) (called : list (list Z))
     | TIface i =>
       match znth i tab, znth i loc with
       | Some lc, Some true =>
+        if zmem i done then embargo_caps c qid k r loc done tab s
+        else
         do '(e, g) <- gen_next (s_mgen s);
         do t <- tput e (mkEmb lc 1) (s_emb s);
         let s1 := set_allocs (s_allocs s + 1) (set_mgen g (set_emb t s)) in
-        do '(s2, tab2, o2) <- embargo_caps c qid k r loc (replace_nth (Z.to_nat i) (CEmb e) tab) s1;
+        do '(s2, tab2, o2) <- embargo_caps c qid k r loc (i :: done) (replace_nth (Z.to_nat i) (CEmb e) tab) s1;
         Ok (s2, tab2, ODisembargoS e qid x :: o2)
-      | _, _ => embargo_caps c qid k r loc tab s
+      | _, _ => embargo_caps c qid k r loc done tab s
       end
-    | _ => embargo_caps c qid k r loc tab s
+    | _ => embargo_caps c qid k r loc done tab s
     end
   end.
 
@@ -850,8 +852,14 @@ Definition handle_return (c : cfg) (qid : Z) (rpc : bool) (k : retk) (s : state)
   match tget qid (s_qs s) with
   | None => Ok (s, [], true)                                    (* question does not exist *)
   | Some q =>
-    let s1 := set_qs (tclear qid (s_qs s)) s in
-    if q_fin q then Ok (set_qgen (gen_remove qid (s_qgen s1)) s1, [], false)
+    let s0 := set_qs (tclear qid (s_qs s)) s in
+    (* fix F19: Return.releaseParamCaps (errors are ignored: the references are gone either way);
+       the clients are released when the handler returns *)
+    let '(s1, pclients) :=
+      if fx19 c && rpc then let '(s1, cl, _) := release_exports (q_prefs q) s0 in (s1, cl) else (s0, []) in
+    if q_fin q then
+      do '(s2, o2) <- release_caps c pclients (set_qgen (gen_remove qid (s_qgen s1)) s1);
+      Ok (s2, o2, false)
     else
     (* parseReturn: Some (content, cap table) or None for pr.err != nil *)
     do '(s2, parsed, torelease, disemb) <-
@@ -861,7 +869,7 @@ Definition handle_return (c : cfg) (qid : Z) (rpc : bool) (k : retk) (s : state)
         match recv_payload c p s1 with
         | PLErr s2 part => do '(s3, rest) <- payload_err c s2 part; Ok (s3, None, rest, [])
         | PLOk s2 kc tab loc =>
-          do '(s3, tab3, o3) <- embargo_caps c qid kc (q_called q) loc tab s2;
+          do '(s3, tab3, o3) <- embargo_caps c qid kc (q_called q) loc [] tab s2;
           Ok (s3, Some (kc, tab3), [], o3)
         end
       | RkExc _ => Ok (s1, None, [], [])
@@ -884,13 +892,8 @@ Definition handle_return (c : cfg) (qid : Z) (rpc : bool) (k : retk) (s : state)
       | None, Some (_, tab) => do '(s4, o4) <- release_caps c tab s2; Ok (s4, LAppRes (q_call q) 0 :: o4)
       | None, None => do '(s4, o4) <- release_caps c torelease s2; Ok (s4, LAppRes (q_call q) 1 :: o4)
       end;
-    (* fix F19: Return.releaseParamCaps *)
-    do '(s5, o5, err) <-
-      (if fx19 c && rpc then
-         let '(s4, cl, err) := release_exports (q_prefs q) s3 in
-         do '(s5, o5) <- release_caps c cl s4; Ok (s5, o5, err)
-       else Ok (s3, [], false));
-    Ok (set_qgen (gen_remove qid (s_qgen s5)) s5, disemb ++ [OFinish qid false] ++ o3 ++ o5, err)
+    do '(s5, o5) <- release_caps c pclients s3;
+    Ok (set_qgen (gen_remove qid (s_qgen s5)) s5, disemb ++ [OFinish qid false] ++ o3 ++ o5, false)
   end.
 
 Definition handle_finish (c : cfg) (id : Z) (rrc : bool) (s : state) : hres :=
